@@ -35,13 +35,17 @@ meta = {'property': prop, 'name': name, 'demo_exit_with_change': rc_with, 'demo_
 ok = rc_with != 0 and rc_without == 0 and not missing
 meta['confirmed'] = ok
 print('confirmed' if ok else 'NOT CONFIRMED', meta['demo_exit_with_change'], meta['demo_exit_without_change'], missing[:3])
-# run the checks against /repo with the change
-rc, o = sh(f'git -C /repo apply --check {out}/patch.diff')
+# run the checks against /repo with the change (or, with --in-worktree, against the worktree itself through HIVE_REPO:
+# same sources plus the change, /repo untouched)
+INWT = '--in-worktree' in sys.argv
+rc, o = (0, '') if INWT else sh(f'git -C /repo apply --check {out}/patch.diff')
 if rc != 0:
     meta['apply_error'] = o[-500:]
     print('patch does not apply to /repo:', o[-300:])
 else:
-    sh(f'git -C /repo apply {out}/patch.diff')
+    if not INWT:
+        sh(f'git -C /repo apply {out}/patch.diff')
+    cenv = dict(os.environ, HIVE_REPO=wt) if INWT else None
     # evidence files are rewritten by every run: keep the ones from the unchanged tree and put them back afterwards
     saved_ev = {f: open(os.path.join(VERIF, 'evidence', f)).read() for f in os.listdir(os.path.join(VERIF, 'evidence'))}
     try:
@@ -50,7 +54,7 @@ else:
             props = [c['property_id'] for c in json.load(open('/verif/MANIFEST.json'))['checks']]
         results = {}
         for p in props:
-            rc, o = sh(f'./check {p} --tier quick', cwd=VERIF)
+            rc, o = sh(f'./check {p} --tier quick', cwd=VERIF, env=cenv)
             lines = [l for l in o.split('\n') if l.startswith(('VIOLATION', 'OK ', 'KNOWN-FINDING'))]
             results[p] = {'exit': rc, 'lines': lines}
             ev = json.load(open(f'/verif/evidence/{p}.json'))
@@ -60,8 +64,9 @@ else:
         meta['checks_with_change'] = results
         meta['detected_by_target_check'] = results[prop]['exit'] == 1
     finally:
-        sh('git -C /repo checkout -- .')
+        if not INWT:
+            sh('git -C /repo checkout -- .')
         for f, txt in saved_ev.items():
             open(os.path.join(VERIF, 'evidence', f), 'w').write(txt)
-meta['ran'] = f'tools/seed_eval.py {prop} {wt} --name {name}' + (' --all' if '--all' in sys.argv else '')
+meta['ran'] = f'tools/seed_eval.py {prop} {wt} --name {name}' + (' --all' if '--all' in sys.argv else '') + (' --in-worktree' if INWT else '')
 json.dump(meta, open(os.path.join(out, 'meta.json'), 'w'), indent=1)
